@@ -50,6 +50,63 @@ static char *copy_range(char const *b, char const *e, char *dst)
   return dst + n;
 }
 '''
+
+PRE += r'''
+/* ---- request line "METHOD SP URI SP PROTOCOL" of the embedded HTTP server (first header of some_headers_data_read) */
+#define K_SERVER_PROTOCOL 1
+struct hreq { char *request_method_; char *request_uri_; bool is_http_11_; bool first_header_observerd_; };
+char const *g_pa_src[2]; size_t g_pa_n[2]; char *g_pa_ret[2]; int g_pa_calls; char const *g_ps_src; char *g_ps_ret; int g_ps_calls; int g_env_calls, g_env_key; char const *g_env_val;
+int g_err_calls; char const *g_sc_arg; int g_sc_calls; bool g_sc_eq; size_t g_ga, g_gr, g_f_off0, g_f_off1; int g_fc;
+static char *pool_add_range(char const *b, char const *e)
+{
+  __CPROVER_assert(SAME(b, e) && OFF(b) <= OFF(e), "pool_.add(begin,end) is given an ordered range of one object");
+  char *r = malloc(1); __CPROVER_assume(r != NULL);
+  if(g_pa_calls < 2) { g_pa_src[g_pa_calls] = b; g_pa_n[g_pa_calls] = OFF(e) - OFF(b); g_pa_ret[g_pa_calls] = r; } if(g_pa_calls < 3) g_pa_calls++;
+  return r;
+}
+static char *pool_add_str(char const *p) { char *r = malloc(1); __CPROVER_assume(r != NULL); if(g_ps_calls < 2) g_ps_calls++; g_ps_src = p; g_ps_ret = r; return r; }
+static void env_add_rec(int key, char const *v) { if(g_env_calls < 2) g_env_calls++; g_env_key = key; g_env_val = v; }
+static void h_protocol_violation(void) { if(g_err_calls < 2) g_err_calls++; }
+/* strcmp(p, literal): the literal must be the protocol name of RFC 2616; the answer is computed from the bytes (short-circuit: never past the NUL) */
+static int strcmp_rec(char const *p, char const *l)
+{
+  __CPROVER_assert(l[0] == 'H' && l[1] == 'T' && l[2] == 'T' && l[3] == 'P' && l[4] == '/' && l[5] == '1' && l[6] == '.' && l[7] == '1' && l[8] == 0, "the protocol is compared with \"HTTP/1.1\"");
+  if(g_sc_calls < 2) g_sc_calls++; g_sc_arg = p;
+  g_sc_eq = p[0] == 'H' && p[1] == 'T' && p[2] == 'T' && p[3] == 'P' && p[4] == '/' && p[5] == '1' && p[6] == '.' && p[7] == '1' && p[8] == 0;
+  int nz; __CPROVER_assume(nz != 0); return g_sc_eq ? 0 : nz;
+}
+'''
+
+PRE += r'''
+/* ---- URI split of process_request: request_uri_ = U[0..n) NUL-terminated; QUERY_STRING after the first '?', SCRIPT_NAME = a configured name that prefixes the path on a segment boundary,
+ *      PATH_INFO = urldecode(rest).  The pool copy of the part before '?' is modelled as the SAME bytes with a logical end (its strlen is the offset of '?': strchr saw no NUL before it). */
+#define K_QUERY_STRING 2
+#define K_SCRIPT_NAME 3
+#define K_PATH_INFO 4
+#define SNMAX 256
+struct hreq2 { char *request_uri_; char *env_query_string_; char *env_script_name_; char *env_path_info_; };
+char *g_U; size_t g_Un;                       /* the request URI and its length (no NUL before g_Un) */
+char *g_names; size_t *g_name_len; unsigned g_sn_n;   /* configured script names: fixed-width slots, lengths taken modulo the slot width */
+size_t g_end_off; int g_cp_len_calls; size_t g_cp_len_n; char const *g_cp_len_src;
+int g_400, g_envq_calls, g_envs_calls, g_envp_calls, g_envx_calls; char const *g_envq_val, *g_envs_val, *g_envp_val;
+int g_sn_calls; size_t g_sn_chosen; char *g_sn_ret; int g_ud_calls; char const *g_ud_b, *g_ud_e; char *g_ud_ret; size_t g_sk; bool g_seen_sk;
+static char nce_string[1];
+static void error_response_rec(void) { if(g_400 < 2) g_400++; }
+static char *pool_add_len(char *p, size_t n) { if(g_cp_len_calls < 2) g_cp_len_calls++; g_cp_len_src = p; g_cp_len_n = n; __CPROVER_assert(p == g_U && n <= g_Un, "the path copy is a prefix of the request URI"); g_end_off = OFF(g_U) + n; return p; }
+static size_t path_strlen(char const *p) { __CPROVER_assert(SAME(p, g_U) && OFF(p) <= g_end_off, "strlen() of a pointer into the path"); return g_end_off - OFF(p); }
+static size_t sn_size(size_t i) { __CPROVER_assert(i < g_sn_n, "script_names[i] inside the vector"); if(i == g_sk) g_seen_sk = 1; return g_name_len[i] % SNMAX; }
+static char const *sn_ptr(size_t i) { __CPROVER_assert(i < g_sn_n, "script_names[i] inside the vector"); return g_names + i * SNMAX; }
+static char *pool_add_name(size_t i) { if(g_sn_calls < 2) g_sn_calls++; g_sn_chosen = i; char *r = malloc(1); __CPROVER_assume(r != NULL); g_sn_ret = r; return r; }
+static char *pool_add_decoded(char const *b, char const *e) { if(g_ud_calls < 2) g_ud_calls++; g_ud_b = b; g_ud_e = e; char *r = malloc(1); __CPROVER_assume(r != NULL); g_ud_ret = r; return r; }
+static void env_add_rec2(int key, char const *v)
+{
+  if(key == K_QUERY_STRING) { if(g_envq_calls < 2) g_envq_calls++; g_envq_val = v; }
+  else if(key == K_SCRIPT_NAME) { if(g_envs_calls < 2) g_envs_calls++; g_envs_val = v; }
+  else if(key == K_PATH_INFO) { if(g_envp_calls < 2) g_envp_calls++; g_envp_val = v; }
+  else g_envx_calls = 1;
+}
+#define UOFF(p) (OFF(p) - OFF(g_U))
+'''
 functions = [
     dict(cname='http_parser_step', file=H, locate=r'int step\(\)', sig='int http_parser_step(struct hparser *self)', members=['state_', 'bracket_counter_'],
          rename={'getc': 'p_getc', 'ungetc': 'p_ungetc'},
@@ -108,6 +165,72 @@ __CPROVER_ensures(__CPROVER_return_value ==> (g_cp_calls == 2 && *o_name == g_cp
 __CPROVER_ensures(__CPROVER_return_value ==> ((*o_name)[g_cp_n[0]] == 0 && (*o_value)[g_cp_n[1]] == 0 && (g_pk < g_cp_n[0] ==> (IS_TOKCH(g_cp_src[0][g_pk]) && (*o_name)[g_pk] == CGI_NORM(g_cp_src[0][g_pk]))) &&
                   (g_pk < g_cp_n[1] ==> (*o_value)[g_pk] == g_cp_src[1][g_pk])))
 '''),
+    dict(stub=True, cname='find_ch', sig='char const *find_ch(char const *b, char const *e, char c)',
+         contract='/* std::find on a char range: the first position holding c, or e; each of the (two) calls is observed at its own arbitrary ghost index and records where it stopped */\n__CPROVER_requires(VALID_RANGE(b, e) && g_fc >= 0 && g_fc < 100)\n__CPROVER_assigns(g_fc, g_f_off0, g_f_off1)\n'
+                  '__CPROVER_ensures(IN_RANGE(__CPROVER_return_value, b, e) && ((__CPROVER_old(g_fc) == 0 ? g_ga : g_gr) < OFF(__CPROVER_return_value) - OFF(b) ==> b[__CPROVER_old(g_fc) == 0 ? g_ga : g_gr] != c) && (__CPROVER_return_value == e || *__CPROVER_return_value == c))\n'
+                  '__CPROVER_ensures(g_fc == __CPROVER_old(g_fc) + 1 && g_f_off0 == (__CPROVER_old(g_fc) == 0 ? OFF(__CPROVER_return_value) : __CPROVER_old(g_f_off0)) && g_f_off1 == (__CPROVER_old(g_fc) == 1 ? OFF(__CPROVER_return_value) : __CPROVER_old(g_f_off1)))'),
+    dict(cname='http_request_line', file=HA, locate=lit('virtual void some_headers_data_read(booster::system::error_code const &er,handler const &h)'),
+         sig='void http_request_line(struct hreq *self, char const *hdr_p, size_t hdr_n)', members=['request_method_', 'request_uri_', 'is_http_11_', 'first_header_observerd_'],
+         slice=dict(between=(r'first_header_observerd_=true;\s*char const \*header_begin', r'BOOSTER_INFO\("cppcms_http"\)[^;]*;\s*\}\s*else \{[^}]*\}'), tail=''),
+         rewrites=[(r'input_parser_\.header_\.c_str\(\)', 'hdr_p', 1), (r'input_parser_\.header_\.size\(\)', 'hdr_n', 1), (r'std::find\(', 'find_ch(', 1),
+                   (r'pool_\.add\(([^,()]+),([^,()]+)\)', r'pool_add_range(\1, \2)', 0), (r'pool_\.add\((\w+)\)', r'pool_add_str(\1)', 0), (r'env_\.add\("(\w+)",', r'env_add_rec(K_\1,', 0),
+                   (r'strcmp\((\w+),("[^"]*")\)', r'strcmp_rec(\1, \2)', 0), (r'BOOSTER_INFO\("cppcms_http"\)[^;]*;', '', 1),
+                   (r'h\(booster::system::error_code\(errc::protocol_violation,cppcms_category\)\);', 'h_protocol_violation();', 0)],
+         contract=r'''
+__CPROVER_requires(__CPROVER_rw_ok(self, sizeof(*self)) && hdr_n <= BUF_CAP && __CPROVER_r_ok(hdr_p, hdr_n + 1) && hdr_p[hdr_n] == 0 && g_pa_calls == 0 && g_ps_calls == 0 && g_env_calls == 0 && g_err_calls == 0 && g_sc_calls == 0 && g_fc == 0)
+__CPROVER_assigns(g_fc, g_f_off0, g_f_off1, self->request_method_, self->request_uri_, self->is_http_11_, self->first_header_observerd_, g_pa_calls, __CPROVER_object_whole(g_pa_src), __CPROVER_object_whole(g_pa_n), __CPROVER_object_whole(g_pa_ret),
+                  g_ps_calls, g_ps_src, g_ps_ret, g_env_calls, g_env_key, g_env_val, g_err_calls, g_sc_calls, g_sc_arg, g_sc_eq)
+/* C01: either the request line is split at its first two spaces -- method = the bytes before the first, URI = the bytes between the first and the second (both without any space),
+   protocol = everything after the second, HTTP/1.1 recognised by an exact comparison -- */
+__CPROVER_ensures(g_err_calls == 0 ==> (g_pa_calls == 2 && g_pa_src[0] == hdr_p && g_pa_n[0] < hdr_n && hdr_p[g_pa_n[0]] == ' ' && (g_ga < g_pa_n[0] ==> hdr_p[g_ga] != ' ') &&
+                  g_pa_src[1] == hdr_p + g_pa_n[0] + 1 && g_pa_n[0] + 1 + g_pa_n[1] < hdr_n && hdr_p[g_pa_n[0] + 1 + g_pa_n[1]] == ' ' && (g_gr < g_pa_n[1] ==> hdr_p[g_pa_n[0] + 1 + g_gr] != ' ') &&
+                  self->request_method_ == g_pa_ret[0] && self->request_uri_ == g_pa_ret[1] &&
+                  g_ps_calls == 1 && g_ps_src == hdr_p + g_pa_n[0] + g_pa_n[1] + 2 && g_env_calls == 1 && g_env_key == K_SERVER_PROTOCOL && g_env_val == g_ps_ret &&
+                  g_sc_calls == 1 && g_sc_arg == g_ps_src && self->is_http_11_ == g_sc_eq && self->first_header_observerd_))
+/* ... or it is refused as a protocol violation, which happens only when the line has fewer than two spaces (none before position s1 = OFF0 and none after it, observed at two arbitrary positions), and then nothing is recorded */
+__CPROVER_ensures(g_err_calls != 0 ==> (g_err_calls == 1 && g_pa_calls == 0 && g_ps_calls == 0 && g_env_calls == 0 && g_f_off0 >= OFF(hdr_p) && g_f_off0 - OFF(hdr_p) <= hdr_n &&
+                  (g_ga < g_f_off0 - OFF(hdr_p) ==> hdr_p[g_ga] != ' ') && (g_f_off0 - OFF(hdr_p) < hdr_n ==> (g_gr < hdr_n - (g_f_off0 - OFF(hdr_p)) - 1 ==> hdr_p[g_f_off0 - OFF(hdr_p) + 1 + g_gr] != ' '))))
+'''),
+    dict(stub=True, cname='verif_strchr', sig='char *verif_strchr(char *p, int c)',
+         contract='/* C strchr on the request URI: the first position holding c before the NUL, or NULL (arbitrary ghost index) */\n__CPROVER_requires(p == g_U && c != 0)\n__CPROVER_assigns()\n'
+                  '__CPROVER_ensures(__CPROVER_return_value == NULL ? (g_ga < g_Un ==> p[g_ga] != c) : (SAME(__CPROVER_return_value, p) && UOFF(__CPROVER_return_value) < g_Un && *__CPROVER_return_value == c && (g_ga < UOFF(__CPROVER_return_value) ==> p[g_ga] != c)))'),
+    dict(stub=True, cname='verif_memcmp2', sig='int verif_memcmp2(char const *a, char const *b, size_t n)',
+         contract='/* C11 memcmp: 0 only if the n bytes are equal (arbitrary ghost index) */\n__CPROVER_requires(n <= BUF_CAP && __CPROVER_r_ok(a, n) && __CPROVER_r_ok(b, n))\n__CPROVER_assigns()\n'
+                  '__CPROVER_ensures(__CPROVER_return_value == 0 ==> (g_pk < n ==> a[g_pk] == b[g_pk]))'),
+    dict(cname='http_uri_split', file=HA, locate=lit('virtual void process_request(handler const &h)'),
+         sig='void http_uri_split(struct hreq2 *self)', members=['request_uri_', 'env_query_string_', 'env_script_name_', 'env_path_info_'],
+         slice=dict(between=(r"if\(request_uri_\[0\]", r'env_\.add\("PATH_INFO",env_path_info_\);'), tail=''),
+         rename={'strchr': 'verif_strchr', 'memcmp': 'verif_memcmp2', 'strlen': 'path_strlen'},
+         rewrites=[(r'error_response\("[^"]*",h\);', 'error_response_rec();', 0), (r'non_const_empty_string', 'nce_string', 1),
+                   (r'pool_\.add\(request_uri_,([^;]+)\);', r'pool_add_len(request_uri_, \1);', 0), (r'env_\.add\("(\w+)",', r'env_add_rec2(K_\1,', 0),
+                   (r'std::vector<std::string> const &script_names =\s*service\(\)\.cached_settings\(\)\.http\.script_names;', '', 1), (r'script_names\.size\(\)', 'g_sn_n', 1),
+                   (r'std::string const &name=script_names\[(\w+)\];', r'size_t name = \1;', 1), (r'name\.size\(\)', 'sn_size(name)', 1), (r'name\.c_str\(\)', 'sn_ptr(name)', 1),
+                   (r'pool_\.add\(name\)', 'pool_add_name(name)', 0), (r'pool_\.add\(util::urldecode\((\w+),([^;]+)\)\);', r'pool_add_decoded(\1, \2);', 0)],
+         loops={0: r'''
+__CPROVER_assigns(i, path, self->env_script_name_, g_seen_sk, g_sn_calls, g_sn_chosen, g_sn_ret, g_envs_calls, g_envs_val, g_envx_calls)
+__CPROVER_loop_invariant(i <= g_sn_n && path == g_U && g_sn_calls == 0 && g_envs_calls == 0 && g_envx_calls == 0 && ((g_sk < i && g_sk < g_sn_n) ==> g_seen_sk))
+__CPROVER_decreases(g_sn_n - i)'''},
+         contract=r'''
+__CPROVER_requires(__CPROVER_rw_ok(self, sizeof(*self)) && self->request_uri_ == g_U && g_Un <= BUF_CAP && __CPROVER_rw_ok(g_U, g_Un + 1) && g_U[g_Un] == 0 && g_end_off == OFF(g_U) + g_Un && g_sn_n <= 200 &&
+                   __CPROVER_r_ok(g_names, (size_t)g_sn_n * SNMAX) && __CPROVER_r_ok(g_name_len, (size_t)g_sn_n * sizeof(size_t)) &&
+                   g_400 == 0 && g_envq_calls == 0 && g_envs_calls == 0 && g_envp_calls == 0 && g_envx_calls == 0 && g_sn_calls == 0 && g_ud_calls == 0 && g_cp_len_calls == 0 && !g_seen_sk)
+__CPROVER_assigns(self->env_query_string_, self->env_script_name_, self->env_path_info_, g_end_off, g_cp_len_calls, g_cp_len_n, g_cp_len_src, g_400, g_envq_calls, g_envs_calls, g_envp_calls, g_envx_calls, g_envq_val, g_envs_val, g_envp_val,
+                  g_sn_calls, g_sn_chosen, g_sn_ret, g_ud_calls, g_ud_b, g_ud_e, g_ud_ret, g_seen_sk)
+/* C01: a URI that does not start with '/' is refused and nothing is published */
+__CPROVER_ensures((g_400 != 0) == (g_U[0] != '/'))
+__CPROVER_ensures(g_400 != 0 ==> (g_envq_calls == 0 && g_envs_calls == 0 && g_envp_calls == 0 && g_envx_calls == 0))
+/* QUERY_STRING is exactly what follows the FIRST '?' (absent when there is none); the path is what precedes it */
+__CPROVER_ensures(g_400 == 0 ==> (g_envx_calls == 0 && g_envp_calls == 1 && g_ud_calls == 1 && g_envp_val == g_ud_ret && self->env_path_info_ == g_ud_ret && SAME(g_ud_b, g_U) && SAME(g_ud_e, g_U) && OFF(g_ud_e) == g_end_off &&
+                  (g_envq_calls == 0 ? (g_end_off == OFF(g_U) + g_Un && (g_ga < g_Un ==> g_U[g_ga] != '?'))
+                                     : (g_envq_calls == 1 && g_end_off < OFF(g_U) + g_Un && g_U[g_end_off - OFF(g_U)] == '?' && (g_ga < g_end_off - OFF(g_U) ==> g_U[g_ga] != '?') &&
+                                        g_envq_val == g_U + (g_end_off - OFF(g_U)) + 1 && self->env_query_string_ == g_envq_val))))
+/* SCRIPT_NAME is a configured name that is a byte prefix of the path ending on a segment boundary, and PATH_INFO is the percent-decoded REST of the path;
+   without such a name (every configured name was tried) PATH_INFO is the whole decoded path */
+__CPROVER_ensures((g_400 == 0 && g_sn_calls != 0) ==> (g_sn_calls == 1 && g_envs_calls == 1 && g_envs_val == g_sn_ret && self->env_script_name_ == g_sn_ret && g_sn_chosen < g_sn_n &&
+                  UOFF(g_ud_b) == g_name_len[g_sn_chosen] % SNMAX && OFF(g_ud_b) <= g_end_off && (g_pk < UOFF(g_ud_b) ==> g_U[g_pk] == g_names[g_sn_chosen * SNMAX + g_pk]) &&
+                  (OFF(g_ud_b) == g_end_off || *g_ud_b == '/')))
+__CPROVER_ensures((g_400 == 0 && g_sn_calls == 0) ==> (g_envs_calls == 0 && g_ud_b == g_U && (g_sk < g_sn_n ==> g_seen_sk)))
+'''),
 ]
 PRE += 'size_t g_h0, g_p0, g_c0, g_u0;\n'
 
@@ -125,6 +248,16 @@ jobs = [
     dict(name='http_parse_single_header', props=P, tier='thorough', enforce='http_parse_single_header', replace=['proto_tocken', 'proto_skip_ws'], per_property=r'.', pp_chunk=10, pp_workers=14, timeout=600, harness=r'''
     size_t n, k; __CPROVER_assume(n <= BUF_CAP); char *b = malloc(n + 1); __CPROVER_assume(b != NULL && b[n] == 0); g_pk = k; g_cp_calls = 0; char const *on, *ov;
     http_parse_single_header(b, n, &on, &ov); VERIF_REACH;'''),
+    dict(name='http_request_line', props=P, enforce='http_request_line', replace=['find_ch'], harness=r'''
+    size_t n, k, a, b2; __CPROVER_assume(n <= BUF_CAP); char *b = malloc(n + 1); __CPROVER_assume(b != NULL && b[n] == 0); g_pk = k; g_ga = a; g_gr = b2; g_fc = 0;
+    g_pa_calls = 0; g_ps_calls = 0; g_env_calls = 0; g_err_calls = 0; g_sc_calls = 0; struct hreq r;
+    http_request_line(&r, b, n); VERIF_REACH;'''),
+    dict(name='http_uri_split', props=P, enforce='http_uri_split', replace=['verif_strchr', 'verif_memcmp2'], harness=r'''
+    size_t n, k, a, sk; unsigned sn; __CPROVER_assume(n <= BUF_CAP && sn <= 200); char *u = malloc(n + 1); __CPROVER_assume(u != NULL && u[n] == 0); g_pk = k; g_ga = a; g_sk = sk;
+    g_U = u; g_Un = n; g_end_off = OFF(u) + n; g_sn_n = sn; g_names = malloc((size_t)sn * SNMAX); g_name_len = malloc((size_t)sn * sizeof(size_t)); __CPROVER_assume(g_names != NULL && g_name_len != NULL);
+    g_400 = 0; g_envq_calls = 0; g_envs_calls = 0; g_envp_calls = 0; g_envx_calls = 0; g_sn_calls = 0; g_ud_calls = 0; g_cp_len_calls = 0; g_seen_sk = 0;
+    struct hreq2 r; r.request_uri_ = u; r.env_query_string_ = nce_string; r.env_script_name_ = nce_string; r.env_path_info_ = nce_string;
+    http_uri_split(&r); VERIF_REACH;'''),
 ]
 
 UNIT = dict(
@@ -132,5 +265,5 @@ UNIT = dict(
     regions=[dict(name='states', file=H, start=r'enum \{\s*idle,', end=r'\}\s*state_;', rewrites=[(r'\}\s*state_;', '} states_t;', 1), (r'^enum', 'typedef enum', 1)]),
              dict(name='results', file=H, start=r'enum \{ more_data,', end=r'\};')],
     trusted=['httpparser: getc()/ungetc() (input cursor with one byte of push-back: std::stack<char> ungot_ and the two buffer modes) and std::string header_ (length + last two bytes) are stubs (R8/R10)'],
-    not_covered={'C01': ['parse_single_header, request line split, SCRIPT_NAME/PATH_INFO split in http_api.cpp'], 'C02': ['http_api.cpp callbacks (error responses, timeouts)']},
+    not_covered={'C01': ['http_api.cpp: REMOTE_ADDR / proxy variables, rewrite rules, body hand-over; that a configured script name that DOES match is chosen (only soundness of the chosen name is under contract)'], 'C02': ['http_api.cpp callbacks (error responses, timeouts)']},
 )
